@@ -734,6 +734,26 @@ flow main
   match Never()
 ''', [("e", "Ping", {}), ("e", "StopA", {}), ("e", "Ping", {}), ("e", "StopB", {}), ("e", "Ping", {})],
        [("e", "StopB", {}), ("e", "Ping", {}), ("e", "StopA", {}), ("e", "Ping", {})])
+    # ---------------------------------------------------------------- an action shared by two flows outlives its first owner
+    sc("shared_action_outlives_first_owner", "action_refs", '''
+flow short
+  match UtteranceUserAction.Finished(final_transcript="go")
+  start UtteranceBotAction(script="hello") as $act
+  match UtteranceUserAction.Finished(final_transcript="short done")
+
+flow long
+  match UtteranceUserAction.Finished()
+  start UtteranceBotAction(script="hello") as $act
+  match UtteranceUserAction.Finished(final_transcript="long done")
+  start UtteranceBotAction(script="bye {$act.status}")
+
+flow main
+  start short
+  start long
+  match Never()
+''', [("u", "go"), ("u", "short done"), ("e", "Noop", {}), ("u", "long done"), ("e", "Noop", {})],
+       [("u", "go"), ("sta", "UtteranceBotAction", 0, {}), ("u", "short done"), ("u", "long done"), ("fin", "UtteranceBotAction", 0, {"final_script": "hello"})])
+
     return S
 
 
